@@ -16,6 +16,9 @@ RULE = ('names 0..6 components of any type (incl. an existing ParametersSha256 c
         'MetaInfo field combinations, payload sizes 0/1/small/251..254/300 and sizes that put the Content, the '
         'packet value and the name length on 252/253/254/65535/65536, 70000; signers: none, digest, HMAC, RSA-2048, '
         'ECDSA P-256/384/521 (variable DER length), Ed25519, null, and a synthetic signer sweeping 0<=actual<=reserved<=300. '
+        'Signer size contract: reserved sizes of real signer objects (ECDSA on P-192/224/256/384/521, Ed25519, HMAC, digest, null) '
+        'against the translated arithmetic; real signatures written into a buffer of exactly the reserved size, r and s read back '
+        'from the DER bytes and the DER length model compared with the real length, extreme r/s on every sign-bit boundary. '
         'non-trivial = signed or carrying parameters/MetaInfo/payload; distinct by input hash')
 ASSUMPTIONS = ['SHA-256 and the signature primitives are external (hashlib / pycryptodome); the model receives the digest and '
                'signature bytes as data and decides WHICH bytes they are computed over and where they go']
@@ -235,3 +238,86 @@ def run(ctx):
             one_data(ctx, M, [G.tlv(8, b'd')], {}, content, sg, 'synthetic')
             one_interest(ctx, M, [G.tlv(8, b'i')], dict(can_be_prefix=False, must_be_fresh=True, nonce=7, lifetime=None,
                                                        hop_limit=None, forwarding_hint=[]), content, sg, 'synthetic')
+    # 4. the size contract of the shipped signers (Model/SignerSizes.v, Generated/SignerSizes.v; C01_ecdsa_signature_fits)
+    signer_sizes(ctx, M, keys)
+
+
+CURVE_BITS = {'P-192': 192, 'P-224': 224, 'P-256': 256, 'P-384': 384, 'P-521': 521}
+
+
+def signer_sizes(ctx, M, keys):
+    """reserved size: the translated arithmetic against get_signature_value_size() of real signer objects on every
+    prime curve; DER length model against real signatures (r, s read back from the DER bytes); oracle: a shipped signer
+    never writes more than it reserved (signing through the real write_signature_value into a buffer of exactly the
+    reserved size)."""
+    from Cryptodome.PublicKey import ECC
+    from Cryptodome.Util.asn1 import DerSequence
+    from ndn.security.signer.sha256_ecdsa_signer import Sha256WithEcdsaSigner
+    rng = ctx.rng
+    fixed = M([22])
+    by_label = {'ed25519': fixed[0], 'hmac': fixed[1], 'digest': fixed[2], 'null': fixed[3]}
+    for label, sg, _ in keys.signers():
+        if label in by_label:
+            got = sg.get_signature_value_size()
+            if got != by_label[label]:
+                ctx.disagree('get_signature_value_size', 'different reserved size', {'signer': label}, by_label[label], got)
+            buf = bytearray(got)
+            n = sg.write_signature_value(memoryview(buf), [memoryview(b'covered')])
+            if n != got:
+                ctx.violation('write_signature_value', 'fixed-size-signer-length',
+                              f'{label}: wrote {n} bytes, reserved {got}', {'signer': label})
+            ctx.case(('sz', label), True, {'signer': label}, 'signer-size.' + label)
+    for cname, bits in CURVE_BITS.items():
+        if cname in keys.ec:
+            key = keys.ec[cname]
+        else:
+            try:
+                key = ECC.generate(curve=cname)
+            except Exception:   # noqa  (curve not offered by this pycryptodome)
+                ctx.stat('signer-size.curve-unavailable.' + cname)
+                continue
+        sg = Sha256WithEcdsaSigner('/key', key.export_key(format='DER'))
+        case = {'signer': 'ecdsa-' + cname, 'curve_bits': bits}
+        if getattr(sg, 'curve_bit', None) != bits:
+            ctx.violation('Sha256WithEcdsaSigner.__init__', 'curve-size', f'curve_bit={getattr(sg, "curve_bit", None)} for {cname}', case)
+        res = sg.get_signature_value_size()
+        m = M([20, bits])
+        if m != res:
+            ctx.disagree('get_signature_value_size', 'different reserved size', case, m, res)
+        lens = {}
+        for i in range(ctx.n(40, 600)):
+            covered = G.rand_bytes(rng, rng.choice([0, 1, 40, 300]))
+            buf = bytearray(res)
+            try:
+                n = sg.write_signature_value(memoryview(buf), [memoryview(covered)])
+            except Exception as e:   # noqa
+                ctx.violation('write_signature_value', 'signature-exceeds-reserved',
+                              f'{cname}: signing into the {res} reserved bytes raises {type(e).__name__}', {**case, 'covered': covered})
+                continue
+            sig = bytes(buf[:n])
+            try:
+                seq = DerSequence().decode(sig)
+                r, s = int(seq[0]), int(seq[1])
+            except Exception as e:   # noqa
+                ctx.violation('write_signature_value', 'not-der', f'{cname}: {type(e).__name__}', {**case, 'sig': sig})
+                continue
+            ml = M([21, r, s])
+            if ml != n:
+                ctx.disagree('der_sig_len', 'different DER length', {**case, 'r': str(r), 's': str(s)}, ml, n)
+            if not (0 < r < (1 << bits) and 0 < s < (1 << bits)):
+                ctx.violation('write_signature_value', 'r-s-range', 'r or s outside [1, 2^bits)', {**case, 'sig': sig})
+            if n > res:
+                ctx.violation('write_signature_value', 'signature-exceeds-reserved', f'{cname}: wrote {n} > reserved {res}', {**case, 'sig': sig})
+            lens[n] = lens.get(n, 0) + 1
+            ctx.case(('sz', cname, i, sig), True, None, f'signer-size.ecdsa-{cname}.len{n}')
+        # extreme r, s for the length model itself (smallest / largest residues, each sign-bit boundary)
+        for r in (1, 127, 128, (1 << (bits - 1)) - 1, 1 << (bits - 1), (1 << bits) - 1):
+            for s in (1, 255, 256, (1 << bits) - 1):
+                want = len(DerSequence([r, s]).encode())
+                ml = M([21, r, s])
+                if ml != want:
+                    ctx.disagree('der_sig_len', 'different DER length', {**case, 'r': str(r), 's': str(s)}, ml, want)
+                if ml > res:
+                    ctx.violation('get_signature_value_size', 'reserved-too-small',
+                                  f'{cname}: a signature with r={r:#x}.. s={s:#x}.. takes {ml} bytes, {res} reserved', {**case, 'r': str(r), 's': str(s)})
+                ctx.case(('szx', cname, r, s), True, None, f'signer-size.ecdsa-{cname}.extreme')
